@@ -14,7 +14,10 @@ from common import ENV, PY, REPO
 HEADER = '%YAML 1.2\n--- !<tag:barectf.org,2020/3/config>\n'
 
 CTF_KEYWORDS = {'align', 'callsite', 'clock', 'enum', 'env', 'event', 'floating_point', 'integer', 'stream',
-                'string', 'struct', 'trace', 'typealias', 'typedef', 'variant'}
+                'string', 'struct', 'trace', 'typealias', 'typedef', 'variant',
+                # the rest of the documented list (rejected since /repo e... "reject every identifier which the documentation reserves")
+                'const', 'char', 'double', 'float', 'int', 'long', 'short', 'signed', 'unsigned', 'void',
+                '_Bool', '_Complex', '_Imaginary'}
 RESERVED_PC = {'packet_size', 'content_size', 'timestamp_begin', 'timestamp_end', 'events_discarded', 'packet_seq_num'}
 
 
